@@ -109,3 +109,37 @@ Proof.
                  (filter (fun x => negb (f x)) l)) by (apply nth_In; lia).
   apply filter_In in H. destruct H as [_ H]. apply negb_true_iff in H. exact H.
 Qed.
+
+(** NoDup and append *)
+Lemma NoDup_app_intro : forall {A} (a b : list A),
+  NoDup a -> NoDup b -> (forall x, In x a -> In x b -> False) -> NoDup (a ++ b).
+Proof.
+  induction a as [|x r IH]; intros b Ha Hb Hd; cbn; [exact Hb|].
+  inversion Ha as [|? ? Hx Hr]; subst. constructor.
+  - intros Hin. apply in_app_or in Hin. destruct Hin as [Hin|Hin]; [contradiction|].
+    apply (Hd x); [left; reflexivity|exact Hin].
+  - apply IH; auto. intros y Hy. apply Hd. right. exact Hy.
+Qed.
+
+Lemma NoDup_app_elim : forall {A} (a b : list A),
+  NoDup (a ++ b) -> NoDup a /\ NoDup b /\ (forall x, In x a -> In x b -> False).
+Proof.
+  induction a as [|x r IH]; intros b H; cbn in H.
+  - split; [constructor|]. split; [exact H|]. intros y [].
+  - inversion H as [|? ? Hx Hr]; subst. destruct (IH b Hr) as (A1 & A2 & A3).
+    split; [constructor; [intros Hc; apply Hx; apply in_or_app; left; exact Hc|exact A1]|].
+    split; [exact A2|]. intros y [Hy|Hy] Hb; [subst; apply Hx; apply in_or_app; right; exact Hb|eapply A3; eauto].
+Qed.
+
+(** reading a whole window of a list *)
+Lemma map_nth_seq_skipn : forall {A} (l : list A) d a n,
+  a + n = length l -> map (fun i => nth i l d) (seq a n) = skipn a l.
+Proof.
+  intros A l d. induction l as [|x r IH]; intros a n H.
+  - cbn in H. assert (n = 0) by lia. subst. destruct a; reflexivity.
+  - destruct a as [|a'].
+    + cbn in H. destruct n as [|n']; [lia|]. cbn [seq map skipn nth]. f_equal.
+      rewrite <- seq_shift, map_map. cbn [nth].
+      specialize (IH 0 n' ltac:(lia)). cbn [skipn] in IH. exact IH.
+    + cbn [skipn]. rewrite <- seq_shift, map_map. cbn [nth]. apply IH. cbn in H. lia.
+Qed.
